@@ -70,6 +70,62 @@ theorem opens_exactly_when (cfg : Cfg) (b : Breaker) (fail slow : Bool) (now : N
       rw [if_pos ht]; simp [Breaker.goto, hc]
   · intro ht; simp [ht]
 
+/-- What "reaches" means: the comparison is exact — `f/n ≥ num/den` as rationals, i.e. `num·n ≤ f·den`. (The
+code evaluates `f as f64 / n as f64 >= θ` with `θ` the double nearest to `num/den`; both sides are correctly rounded
+values of the two rationals, so for `n, den ≤ 2^20` the answers coincide — `gen/circuit.py: f64_agrees` checks this
+on every threshold and total a generated case can evaluate.) -/
+theorem reached_iff (f n num den : Nat) : reached f n num den = true ↔ n > 0 ∧ num * n ≤ f * den := by
+  simp [reached]
+
+/-- **A rate EQUAL to the threshold trips.** Closed breaker, the window after this outcome holds at least
+`minimum_number_of_calls` (≥ 1) outcomes and is full if count-based: if the failures are exactly
+`threshold × calls` (`k·den = num·n`, e.g. 7 of 25 at 0.28, 7 of 50 at 0.14), or slow-call detection is
+enabled and the slow calls are exactly `slow threshold × calls` (14 of 25 at 0.56), the breaker opens on
+this very outcome, not one failure later. -/
+theorem rate_equal_to_threshold_trips (cfg : Cfg) (b : Breaker) (fail slow : Bool) (now : Nat) (h : b.st = .closed)
+    (hpos : ((b.push ⟨now, fail, slow⟩).window cfg now).length > 0)
+    (hmin : ((b.push ⟨now, fail, slow⟩).window cfg now).length ≥ cfg.minCalls)
+    (hfull : cfg.countBased = true → ((b.push ⟨now, fail, slow⟩).window cfg now).length ≥ cfg.size)
+    (heq : countFail ((b.push ⟨now, fail, slow⟩).window cfg now) * cfg.frDen
+              = cfg.frNum * ((b.push ⟨now, fail, slow⟩).window cfg now).length ∨
+           (cfg.slowMs.isSome = true ∧
+            countSlow ((b.push ⟨now, fail, slow⟩).window cfg now) * cfg.srDen
+              = cfg.srNum * ((b.push ⟨now, fail, slow⟩).window cfg now).length)) :
+    (b.record cfg fail slow now).st = .opened := by
+  rw [(opens_exactly_when cfg b fail slow now h).1]
+  unfold Breaker.tripped shouldOpen
+  simp only [Bool.and_eq_true, Bool.or_eq_true, decide_eq_true_eq, Bool.not_eq_true', reached_iff]
+  refine ⟨⟨hmin, ?_⟩, ?_⟩
+  · cases hcb : cfg.countBased with
+    | false => left; rfl
+    | true => right; exact hfull hcb
+  · rcases heq with he | ⟨hs, he⟩
+    · left; exact ⟨hpos, by omega⟩
+    · right; exact ⟨hs, hpos, by omega⟩
+
+/-- **One below the boundary stays closed**: if the failures are fewer than `threshold × calls` and (when
+slow-call detection is enabled) the slow calls fewer than `slow threshold × calls`, the outcome is just added. -/
+theorem below_threshold_stays_closed (cfg : Cfg) (b : Breaker) (fail slow : Bool) (now : Nat) (h : b.st = .closed)
+    (hf : countFail ((b.push ⟨now, fail, slow⟩).window cfg now) * cfg.frDen
+            < cfg.frNum * ((b.push ⟨now, fail, slow⟩).window cfg now).length)
+    (hs : cfg.slowMs.isSome = true →
+          countSlow ((b.push ⟨now, fail, slow⟩).window cfg now) * cfg.srDen
+            < cfg.srNum * ((b.push ⟨now, fail, slow⟩).window cfg now).length) :
+    b.record cfg fail slow now = b.push ⟨now, fail, slow⟩ := by
+  apply (opens_exactly_when cfg b fail slow now h).2
+  unfold Breaker.tripped shouldOpen
+  have hnf : reached (countFail ((b.push ⟨now, fail, slow⟩).window cfg now))
+      ((b.push ⟨now, fail, slow⟩).window cfg now).length cfg.frNum cfg.frDen = false := by
+    rw [Bool.eq_false_iff]; intro hr; rw [reached_iff] at hr; omega
+  have hns : (cfg.slowMs.isSome && reached (countSlow ((b.push ⟨now, fail, slow⟩).window cfg now))
+      ((b.push ⟨now, fail, slow⟩).window cfg now).length cfg.srNum cfg.srDen) = false := by
+    cases hso : cfg.slowMs.isSome with
+    | false => rfl
+    | true =>
+      have := hs hso
+      rw [Bool.true_and, Bool.eq_false_iff]; intro hr; rw [reached_iff] at hr; omega
+  simp only [hnf, hns, Bool.or_self, Bool.and_false]
+
 /-- open → half-open on the first call at or after `wait_duration_in_open`; before that every
 call is refused and nothing changes. -/
 theorem half_open_after_wait (cfg : Cfg) (b : Breaker) (now : Nat) (h : b.st = .opened) :
@@ -127,5 +183,21 @@ example :
     let h := [Act.call false 0, .call false 0, .call false 0, .call false 0, .call true 0]
     (specRun cfg h).1.st = .closed ∧ (specRun cfg (h ++ [.call true 0])).1.st = .opened ∧
     (seqRun cfg (h ++ [.call true 0])).1.st = .opened := by decide
+
+set_option maxRecDepth 100000 in
+/-- Non-vacuity at a float-sensitive boundary (0.28 × 25 = 7, where `0.28 * 25.0` rounds above 7): count-based
+window 25 — and time-based with `minimum_number_of_calls = 25` —, 18 successes and 7 failures: the documented
+machine and the transcribed circuit open on the 25th call; with 6 failures they stay closed. -/
+example :
+    let cfg : Cfg := { size := 25, minCalls := 25, frNum := 28, frDen := 100 }
+    let cfgT : Cfg := { countBased := false, size := 100, windowMs := 5000, minCalls := 25, frNum := 28, frDen := 100 }
+    let ok18 := List.replicate 18 (Act.call false 0)
+    (specRun cfg (ok18 ++ List.replicate 7 (Act.call true 0))).1.st = .opened ∧
+    (seqRun cfg (ok18 ++ List.replicate 7 (Act.call true 0))).1.st = .opened ∧
+    (specRun cfg (ok18 ++ List.replicate 6 (Act.call true 0))).1.st = .closed ∧
+    (specRun cfg (Act.call false 0 :: ok18 ++ List.replicate 6 (Act.call true 0))).1.st = .closed ∧
+    (specRun cfgT (ok18 ++ List.replicate 7 (Act.call true 0))).1.st = .opened ∧
+    (seqRun cfgT (ok18 ++ List.replicate 7 (Act.call true 0))).1.st = .opened ∧
+    (specRun cfgT (ok18 ++ List.replicate 6 (Act.call true 0))).1.st = .closed := by decide
 
 end TR.Props.C04
